@@ -432,6 +432,7 @@ theorem writeLoop_wf : ∀ (c : Nat) (s : S), WF s → s.closing = false →
     · exact ⟨h, hc, rfl⟩
     · rename_i r rest hq
       have := writeIter_wf s r rest h hq hc
+      simp only []
       split <;> exact this
   | succ c ih =>
     intro s h hc
@@ -440,10 +441,168 @@ theorem writeLoop_wf : ∀ (c : Nat) (s : S), WF s → s.closing = false →
     · exact ⟨h, hc, rfl⟩
     · rename_i r rest hq
       have := writeIter_wf s r rest h hq hc
+      simp only []
       split
       · obtain ⟨w1, w2, w3⟩ := this
         have := ih _ w1 w2
         exact ⟨this.1, this.2.1, this.2.2.trans w3⟩
       · exact this
+
+/-- what neither the write loop nor an API call ever changes -/
+structure Frame (s s' : S) : Prop where
+  pq : s'.pq = s.pq
+  cbs : s'.cbs = s.cbs
+  connErr : s'.connErr = s.connErr
+  closed : s'.closed = s.closed
+  hard : s.hardErr = true → s'.hardErr = true
+
+theorem Frame.refl (s : S) : Frame s s := ⟨rfl, rfl, rfl, rfl, id⟩
+theorem Frame.trans {a b c : S} (h1 : Frame a b) (h2 : Frame b c) : Frame a c :=
+  ⟨h2.pq.trans h1.pq, h2.cbs.trans h1.cbs, h2.connErr.trans h1.connErr, h2.closed.trans h1.closed,
+   fun h => h2.hard (h1.hard h)⟩
+
+theorem writeIter_frame (s : S) (r : Req) (rest : List Req) : Frame s (writeIter s r rest).1 := by
+  obtain ⟨k, env', tr, e1, _, _⟩ := tryWriteOnce_spec s (r.bufs.drop r.widx) r.send r.id r.sent
+  unfold writeIter
+  simp only [e1]
+  split
+  · split <;> exact ⟨rfl, rfl, rfl, rfl, id⟩
+  · split
+    · exact ⟨rfl, rfl, rfl, rfl, id⟩
+    · exact ⟨rfl, rfl, rfl, rfl, fun _ => rfl⟩
+
+theorem writeLoop_frame : ∀ (c : Nat) (s : S), Frame s (writeLoop c s) := by
+  intro c
+  induction c with
+  | zero =>
+    intro s
+    unfold writeLoop
+    split
+    · exact Frame.refl s
+    · simp only []; split <;> exact writeIter_frame s _ _
+  | succ c ih =>
+    intro s
+    unfold writeLoop
+    split
+    · exact Frame.refl s
+    · simp only []
+      split
+      · exact (writeIter_frame s _ _).trans (ih _)
+      · exact writeIter_frame s _ _
+
+/-! ### API calls preserve the invariant -/
+
+def ClFrame (s s' : S) : Prop :=
+  s.closing = true → s'.closing = true ∧ s'.cq = s.cq ∧ s'.wq = s.wq
+
+theorem WF.bump {s : S} (h : WF s) : WF { s with nextId := s.nextId + 1 } :=
+  { wqs_eq := h.wqs_eq, wq_ok := h.wq_ok, sent_ok := h.sent_ok, done_ok := h.done_ok, acc_eq := h.acc_eq,
+    acc_lt := ⟨h.acc_lt.1, fun i hi => Nat.lt_succ_of_lt (h.acc_lt.2 i hi)⟩,
+    closing_ok := h.closing_ok, shut_ok := h.shut_ok, called_ok := h.called_ok, req_ok := h.req_ok,
+    os_ok := h.os_ok, cbs_ok := h.cbs_ok, mon_ok := h.mon_ok, closed_ok := h.closed_ok }
+
+theorem check_ok (s : S) (send : Bool) (h : ¬ checkBeforeWrite s send < 0) :
+    s.fdOpen = true ∧ s.writable = true := by
+  cases hf : s.fdOpen <;> cases hw : s.writable <;>
+    simp [checkBeforeWrite, hf, hw, UV_EBADF, UV_EPIPE] at h ⊢
+
+theorem WF.open_facts {s : S} (h : WF s) (hf : s.fdOpen = true) (hw : s.writable = true) :
+    s.closing = false ∧ s.shut = false ∧ s.closed = false ∧ s.shutdownCalled = false ∧
+    s.shutdownReq = false := by
+  have hc : s.closing = false := by
+    cases hc : s.closing with
+    | false => rfl
+    | true => have := (h.closing_ok hc).1; rw [hf] at this; cases this
+  refine ⟨hc, ?_, ?_, ?_, ?_⟩
+  · cases hs : s.shut with
+    | false => rfl
+    | true => have := (h.shut_ok hs).2.2; rw [hw] at this; cases this
+  · cases hs : s.closed with
+    | false => rfl
+    | true => have := (h.closed_ok hs).1; rw [hc] at this; cases this
+  · cases hs : s.shutdownCalled with
+    | false => rfl
+    | true => have := h.called_ok hs; rw [hw] at this; cases this
+  · cases hs : s.shutdownReq with
+    | false => rfl
+    | true => have := h.req_ok hs; rw [hw] at this; cases this
+
+theorem write2_wf (s : S) (bufs : List Nat) (send : Bool) (h : WF s) :
+    WF (write2 s bufs send).1 ∧ Frame s (write2 s bufs send).1 ∧ ClFrame s (write2 s bufs send).1 := by
+  unfold write2
+  simp only []
+  by_cases hchk : checkBeforeWrite { s with nextId := s.nextId + 1 } send < 0
+  · simp only [hchk, if_true]
+    exact ⟨h.bump, ⟨rfl, rfl, rfl, rfl, id⟩, fun hc => ⟨hc, rfl, rfl⟩⟩
+  · simp only [hchk, if_false]
+    obtain ⟨hf, hw⟩ := check_ok _ _ hchk
+    have hf : s.fdOpen = true := hf
+    have hw : s.writable = true := hw
+    obtain ⟨hc, hs, hcd, hsc, hsr⟩ := h.open_facts hf hw
+    have hclf : ∀ s' : S, ClFrame s s' := fun s' hcl => by rw [hc] at hcl; cases hcl
+    have w2 : WF { s with nextId := s.nextId + 1, wqs := s.wqs + totalOf bufs,
+        wq := s.wq ++ [{ id := s.nextId, bufs := bufs, send := send, total := totalOf bufs }],
+        accepted := s.accepted ++ [s.nextId],
+        submitted := s.submitted ++ bytes s.nextId 0 (totalOf bufs) } :=
+      { wqs_eq := by
+          have := h.wqs_eq
+          simp only [unsent_append, unsent_cons, unsent_nil, rem, List.drop_zero, totalOf] at this ⊢
+          omega
+        wq_ok := by
+          intro x hx
+          rcases List.mem_append.1 hx with hx | hx
+          · exact h.wq_ok x hx
+          · rw [List.mem_singleton.1 hx]
+            exact ⟨Nat.zero_le _, rfl, rfl, fun _ => rfl⟩
+        sent_ok := by
+          intro x hx
+          simp only [List.mem_append, List.mem_singleton] at hx
+          rcases hx with (hx | hx) | hx | hx
+          · exact h.sent_ok x (by simp [hx])
+          · exact h.sent_ok x (by simp [hx])
+          · exact h.sent_ok x (by simp [hx])
+          · subst hx; simp [rem, totalOf]
+        done_ok := h.done_ok
+        acc_eq := by
+          have := h.acc_eq
+          simp only [List.map_append, List.map_cons, List.map_nil, List.append_assoc] at this ⊢
+          rw [this]
+        acc_lt := by
+          refine ⟨List.pairwise_append.2 ⟨h.acc_lt.1, List.pairwise_singleton _ _, ?_⟩, ?_⟩
+          · intro a ha b hb
+            rw [List.mem_singleton.1 hb]; exact h.acc_lt.2 a ha
+          · intro i hi
+            rcases List.mem_append.1 hi with hi | hi
+            · exact Nat.lt_succ_of_lt (h.acc_lt.2 i hi)
+            · rw [List.mem_singleton.1 hi]; exact Nat.lt_succ_self _
+        closing_ok := by intro hcl; simp only [] at hcl; rw [hc] at hcl; cases hcl
+        shut_ok := by intro hh; simp only [] at hh; rw [hs] at hh; cases hh
+        called_ok := by intro hh; simp only [] at hh; rw [hsc] at hh; cases hh
+        req_ok := by intro hh; simp only [] at hh; rw [hsr] at hh; cases hh
+        os_ok := by
+          rcases h.os_ok with hh | ⟨rest, hr1, hr2⟩
+          · exact Or.inl hh
+          · right
+            refine ⟨rest ++ bytes s.nextId 0 (totalOf bufs), ?_, fun _ => ?_⟩
+            · simp only [hr1, List.append_assoc]
+            · rw [hr2 hc, pend_append]; simp [rem, totalOf]
+        cbs_ok := h.cbs_ok
+        mon_ok := h.mon_ok
+        closed_ok := by intro hh; simp only [] at hh; rw [hcd] at hh; cases hh }
+    split
+    · exact ⟨w2, ⟨rfl, rfl, rfl, rfl, id⟩, hclf _⟩
+    · split
+      · have := writeLoop_wf 32 _ w2 hc
+        have fr := writeLoop_frame 32 { s with nextId := s.nextId + 1, wqs := s.wqs + totalOf bufs,
+          wq := s.wq ++ [{ id := s.nextId, bufs := bufs, send := send, total := totalOf bufs }],
+          accepted := s.accepted ++ [s.nextId],
+          submitted := s.submitted ++ bytes s.nextId 0 (totalOf bufs) }
+        exact ⟨this.1, ⟨fr.pq, fr.cbs, fr.connErr, fr.closed, fr.hard⟩, hclf _⟩
+      · refine ⟨?_, ⟨rfl, rfl, rfl, rfl, id⟩, hclf _⟩
+        exact { wqs_eq := w2.wqs_eq, wq_ok := w2.wq_ok, sent_ok := w2.sent_ok, done_ok := w2.done_ok,
+                acc_eq := w2.acc_eq, acc_lt := w2.acc_lt,
+                closing_ok := (by intro hcl; simp only [] at hcl; rw [hc] at hcl; cases hcl),
+                shut_ok := w2.shut_ok, called_ok := w2.called_ok, req_ok := w2.req_ok, os_ok := w2.os_ok,
+                cbs_ok := w2.cbs_ok, mon_ok := w2.mon_ok, closed_ok := w2.closed_ok }
 
 end UvModel.StreamW
